@@ -3,9 +3,9 @@
 patch="$1"; id="$2"; tier="${3:-quick}"
 cd /verif
 if ! git -C /repo diff --quiet; then echo "/repo has local modifications" >&2; exit 3; fi
-git -C /repo apply "$patch" 2>/dev/null || git -C /repo apply --3way "$patch" || { echo "patch does not apply"; exit 3; }
+git -C /repo apply "$patch" 2>/dev/null || git -C /repo apply --3way "$patch" 2>/dev/null || { git -C /repo reset -q --hard HEAD; echo "patch does not apply"; exit 3; }
 ./vt check "$id" --tier "$tier" > /tmp/mutrun_$$.log 2>&1; rc=$?
-git -C /repo checkout -- . ; git -C /repo reset -q
+git -C /repo reset -q --hard HEAD
 grep -c "^VIOLATION" /tmp/mutrun_$$.log | sed "s/^/violations: /"
 grep "^VIOLATION" /tmp/mutrun_$$.log | head -2
 grep "HARNESS-ERROR\|CANARY-MISSED" /tmp/mutrun_$$.log | head -3
